@@ -66,6 +66,7 @@ class Fn:
             d = ops[0]
         P = cxx2c.Printer(self.cname, self.types, self.calls, self.members, self.hooks, self.self_struct,
                           self.aggregates, self.stmt_hooks, self.uf_float, self.opaque)
+        P.default_file = loc.get('file') or loc.get('expansionLoc', {}).get('file') or loc.get('spellingLoc', {}).get('file') or astload.resolve_tu(self.tu)
         text = P.function(d, self.ret, self.extra_params)
         if self.post:
             text = self.post(text)
@@ -78,7 +79,8 @@ class Target:
     """a CBMC/DFCC verification unit: one enforced contract over extracted functions"""
 
     def __init__(self, name, fns, prelude, enforce=None, replace=(), harness=None, loops=None, checks=None,
-                 source=None, note='', cbmc_flags=(), timeout=None, enforce_none=False):
+                 source=None, note='', cbmc_flags=(), timeout=None, enforce_none=False, defines=()):
+        self.defines = list(defines)
         self.name = name
         self.fns = fns
         self.prelude = prelude            # path relative to /verif
@@ -162,7 +164,7 @@ class Target:
         res['c_file'] = cfile
         gb = cfile[:-2] + '.gb'
         gb2 = cfile[:-2] + '.dfcc.gb'
-        rc, so, se, dt = run(['goto-cc', '-DNV_CBMC', '-I' + os.path.join(VERIF, 'models'), '-o', gb, cfile], 120)
+        rc, so, se, dt = run(['goto-cc', '-DNV_CBMC'] + ['-D' + d for d in self.defines] + ['-I' + os.path.join(VERIF, 'models'), '-o', gb, cfile], 120)
         res['seconds']['goto-cc'] = dt
         if rc != 0:
             res.update(status='undecided', reason='goto-cc failed: ' + (se or so)[-1500:])
